@@ -13,14 +13,6 @@ sys.path.insert(0, VERIF)
 ALL = ['C%02d' % i for i in range(1, 21)]
 
 NOT_APPLICABLE = {
-    'C02': 'pointwise numerical identity (output = multilinear / simplex '
-           'interpolant at every real input): its truth lives in real '
-           'arithmetic over sort orders and floor/clip cases, not in the shape '
-           'of the code; no sound static argument in reach (DESIGN 0)',
-    'C05': 'output equals the PWL interpolant / row lookup at every input: a '
-           'numeric identity; the only structural proxy (comparing expression '
-           'DAGs of call vs keypoints_outputs) would fire on behaviour-'
-           'preserving rewrites, so it is declined (DESIGN 0)',
     'C10': 'quantifies over seeds and real-valued initial kernels (sortedness '
            'and range of sampled values are runtime facts); structural residue '
            'is covered under C16/C03 (DESIGN 0)',
